@@ -1,5 +1,6 @@
 import Chewing.Proofs.EditorSelect
 import Chewing.Props.C04
+import Chewing.Props.C01
 /-!
 # C07 — candidate lists are complete, consistently paged, and choosing i yields item i
 
@@ -331,6 +332,8 @@ theorem editor_choose_out_of_range {e : Editor D L} {s : Selecting} {cs : List T
   rw [hs]
   simp only [choose_out_of_range_rejected env hc h, applyTrans_spin]
   rw [← hs]
+  -- `self.state.is_entering() && last == Absorb` (C01's fix of `Editor::select`): the last behaviour is Bell
+  simp only [show (KB.bell == KB.absorb) = false by decide, Bool.and_false, Bool.false_eq_true, ↓reduceIte]
   rfl
 
 /-- a choice closes the list, or is rejected with nothing changed, or (symbol table: a category with
@@ -483,14 +486,66 @@ theorem phrase_list_complete {p : PhraseSel} {d : D} {l : L} {key : List Nat} {c
     intro ph hph; rw [← hc]
     exact List.mem_map_of_mem hph
 
-/-! ### F40: the highlighted range is not always made of syllables -/
+/-! ### the highlighted range is made of syllables (F40 repaired) -/
 
 /-- the full-strength claim behind "exactly the highlighted syllables": in every state reached by a
-    history, the range of an open phrase list consists of syllables -/
+    history, the range of an open phrase list consists of syllables.  NOT proved in this generality (and
+    no longer refuted): see `range_is_syllables_partial` for what is proved and for the gap. -/
 def range_is_syllables_full : Prop :=
   ∀ (D L : Type) (env : Env D L) (e e' : Editor D L) (ops : List (Op L)) (s : Selecting) (p : PhraseSel),
     e.state = .entering → e.run env ops = .ok e' → e'.state = .selecting s → s.sel = .phrase p →
     ∃ key, RangeIs p key
+
+/-- a run of syllables inside the buffer is a `RangeIs` range -/
+theorem rangeIs_of_allSyl {p : PhraseSel} (hlt : p.begin_ < p.end_) (hle : p.end_ ≤ p.com.symbols.length)
+    (hsyl : C04.AllSyl p.com p.begin_ p.end_) : ∃ key, RangeIs p key := by
+  have hall : ∀ (l : List Sym), (∀ i, i < l.length → ∃ k, l[i]? = some (Sym.syl k)) → ∃ key : List Nat, l = key.map Sym.syl := by
+    intro l
+    induction l with
+    | nil => intro _; exact ⟨[], rfl⟩
+    | cons x xs ih =>
+      intro h
+      obtain ⟨k, hk⟩ := h 0 (by simp)
+      obtain ⟨ks, hks⟩ := ih (fun i hi => by
+        obtain ⟨k', hk'⟩ := h (i + 1) (by simp only [List.length_cons]; omega)
+        exact ⟨k', by simpa using hk'⟩)
+      simp only [List.getElem?_cons_zero, Option.some.injEq] at hk
+      exact ⟨k :: ks, by rw [hk, hks]; rfl⟩
+  obtain ⟨key, hkey⟩ := hall ((p.com.symbols.drop p.begin_).take (p.end_ - p.begin_)) (by
+    intro i hi
+    simp only [List.length_take, List.length_drop] at hi
+    obtain ⟨k, hk⟩ := hsyl (p.begin_ + i) (by omega) (by omega)
+    refine ⟨k, ?_⟩
+    rw [List.getElem?_take_of_lt (by omega), List.getElem?_drop]
+    exact hk)
+  refine ⟨key, ?_⟩
+  unfold RangeIs sliceSyms
+  rw [if_neg (by omega), if_neg (by omega), hkey]
+
+/-- **the range of an open phrase list consists of syllables** — `_partial`: for every environment
+    satisfying C01's explicit hypotheses `EnvOK`, from every state satisfying C01's reachable-state
+    invariant (`C01.initial_inv`: a fresh editor does), after every history C01's theorem covers
+    (`C01.Allowed`: every key event in every state, `select(n)`, start / cancel selecting, commit, reset,
+    option / layout / engine / dictionary calls — minus the recorded class F02/F03 of C01, and minus
+    `jump_to_*_selection_point` **while a phrase list is open**, the one corner C01's invariant does not
+    cover yet).  That corner is where finding F40/F41 lived (`chewing_cand_list_first` on the simple
+    engine's single-word list swallowed the following non-syllable symbol); it was repaired by
+    `fix: init_single_word remembers the position of the word` — `f40_history_repaired` below evaluates
+    the former witness history — and stays covered by the correspondence and by the oracle (any range
+    with a non-syllable is reported as `new`). -/
+theorem range_is_syllables_partial {D L : Type} {env : Env D L} {G : D → Prop} (hE : C01.EnvOK env G)
+    (e e' : Editor D L) (hi : C01.EditorInv env G e) (ops : List (Op L)) (ha : C01.Allowed env e ops)
+    (s : Selecting) (p : PhraseSel)
+    (hrun : e.run env ops = .ok e') (hs : e'.state = .selecting s) (hsel : s.sel = .phrase p) :
+    ∃ key, RangeIs p key := by
+  obtain ⟨e'', hrun', hi'⟩ := C01.C01_partial_run hE ops e hi ha
+  have : e'' = e' := C01.ok_unique hrun' hrun
+  subst this
+  have hst := hi'.st
+  rw [hs] at hst
+  have hp := hst.sel
+  rw [hsel] at hp
+  exact rangeIs_of_allSyl hp.lt hp.le hp.syl
 
 /-- a layout whose keys 32, Space spell syllable 1; one word for it -/
 def f40Env : Env Unit Nat :=
@@ -509,33 +564,22 @@ def f40Start : Editor Unit Nat :=
 def f40Ops : List (Op Nat) :=
   [.key { index := 32, code := 32, unicode := 104 }, .key { index := 48, code := 48, unicode := 32 }, .jump 0]
 
-/-- **F40** (known finding): after `jump_to_first_selection_point` on the simple engine's single-word
-    list the range is `syllable + "？"`, yet the list is the one of the leading syllable -/
-theorem f40_witness :
+/-- **F40 repaired** (was `f40_witness` / `range_is_syllables_refuted`: the range became
+    `syllable + "？"`): after `jump_to_first_selection_point` on the simple engine's single-word list the
+    range is still the syllable alone, and the list is that syllable's -/
+theorem f40_history_repaired :
     ∃ (e' : Editor Unit Nat) (s : Selecting) (p : PhraseSel),
       f40Start.run f40Env f40Ops = .ok e' ∧ e'.state = .selecting s ∧ s.sel = .phrase p ∧
-      p.begin_ = 0 ∧ p.end_ = 2 ∧ p.com.symbols = [.syl 1, .chr 65311] ∧
+      p.begin_ = 0 ∧ p.end_ = 1 ∧ p.com.symbols = [.syl 1, .chr 65311] ∧ RangeIs p [1] ∧
       Selecting.candidates f40Env s e'.shared = .ok [[28204]] :=
-  ⟨_, _, _, rfl, rfl, rfl, rfl, rfl, rfl, rfl⟩
-
-theorem range_is_syllables_refuted : ¬ range_is_syllables_full := by
-  intro h
-  obtain ⟨e', s, p, hrun, hs, hsel, hb, he, hsym, _⟩ := f40_witness
-  obtain ⟨key, hk⟩ := h Unit Nat f40Env f40Start e' f40Ops s p rfl hrun hs hsel
-  unfold RangeIs sliceSyms at hk
-  rw [hb, he, hsym] at hk
-  simp only [List.length_cons, List.length_nil] at hk
-  injection hk with hk
-  match key, hk with
-  | [], hk => cases hk
-  | [_], hk => cases hk
-  | _ :: _ :: _, hk => simp at hk
+  ⟨_, _, _, rfl, rfl, rfl, rfl, rfl, rfl, rfl, rfl⟩
 
 /-- `_partial`: whenever the range *is* made of syllables — which `phrase_list_complete` takes as its
     premise `RangeIs` — the list is complete; the premise holds right after every opening by Down /
     Space / `chewing_cand_open` for the first symbol (`init_range`: the dictionary has a phrase for the
     leading syllables of a non-empty range), and is checked on every step of every generated history
-    by the oracle, F40 being the only class of exceptions observed -/
+    by the oracle (no exception observed since the F40 repair); `range_is_syllables_partial` proves it
+    for the histories C01's invariant covers -/
 theorem phrase_list_complete_partial {p : PhraseSel} {d : D} {l : L} {key : List Nat} {cs : List Text}
     (hr : RangeIs p key) (hc : PhraseSel.candidates env p d l = .ok cs) :
     ∀ ph ∈ env.lookupAll d key p.strategy, ph.text ∈ cs := (phrase_list_complete env hr hc).2.2
